@@ -192,6 +192,7 @@ def build(world, cfg, counter, slow=None):
     if cfg.get('nfun') is None:
         def probe(*args, **kwargs):
             counter['n'] += 1
+            counter['received'] = (args, dict(kwargs))
             if slow is not None:
                 slow(args, kwargs)
             return describe(args, kwargs, ignore)
@@ -204,6 +205,7 @@ def build(world, cfg, counter, slow=None):
     def make(i):
         def probe(*args, **kwargs):
             counter['n'] += 1
+            counter['received'] = (args, dict(kwargs))
             if slow is not None:
                 slow(args, kwargs)
             res = (i,) + describe(args, kwargs, ignore)
@@ -320,6 +322,14 @@ def run_seq(case):
                                    'detail': 'call #%d %s: %s' % (idx, json.dumps(call), str(exc)[:100])})
                 break
             ran = counter['n'] - before
+            if ran and counter.get('received') is not None:
+                # what is ignored stays out of the KEY; the function itself is called with everything the caller passed
+                r_args, r_kwargs = counter['received']
+                if len(r_args) != len(args) or sorted(r_kwargs) != sorted(kwargs) or any(a is not b for a, b in zip(r_args, args)):
+                    violations.append({'rule': 'C16/arguments-not-passed-through', 'sig': wrap,
+                                       'detail': 'call #%d %s: the function received %d positional and the keywords %s' % (
+                                           idx, json.dumps(call)[:200], len(r_args), sorted(r_kwargs))})
+                    break
             if multi and repr(want) in cfg['_raising']:
                 prev = seen.get(repr(fn.__cache_key__(*args, **kwargs)))
                 f12 = prev is not None and separator_collision(prev[1], want_desc)      # known finding F12, by cause
